@@ -46,7 +46,7 @@ fn var_text(header: &vcf::Header, rec: &dyn vcf::variant::Record) -> Result<Stri
 }
 
 pub fn has_async_reader(name: &str) -> bool {
-    matches!(name, "bgzf" | "bam" | "bam-eager" | "sam" | "cram" | "vcf" | "bcf" | "fasta" | "fastq" | "gff" | "bai" | "csi" | "tabix" | "gzi" | "fai" | "crai")
+    matches!(name, "bgzf" | "bam" | "bam-eager" | "sam" | "cram" | "vcf" | "bcf" | "fasta" | "fastq" | "gff" | "gff-bufs" | "bai" | "csi" | "tabix" | "gzi" | "fai" | "crai")
 }
 
 pub fn has_async_writer(name: &str) -> bool {
@@ -61,8 +61,6 @@ pub fn read_async(name: &str, data: &Arc<Vec<u8>>, doc: &Doc, script: &PollScrip
     }
     let src = AdvAsyncRead::new(data.clone(), script);
     let stats = src.stats.clone();
-    // a second source under the same script for drivers that read the input twice (gff)
-    let src2 = if name == "gff" { Some(AdvAsyncRead::new(data.clone(), script)) } else { None };
     let rt = runtime();
     let workers = NonZero::new(workers.clamp(1, 8)).unwrap();
     let mut t: Transcript = Vec::new();
@@ -369,23 +367,25 @@ pub fn read_async(name: &str, data: &Arc<Vec<u8>>, doc: &Doc, script: &PollScrip
                         }
                     }
                 }
-                // second pass: the owned views (`line_bufs()` stream), as in the sync half
-                if let Some(src2) = src2 {
-                    use futures::TryStreamExt;
-                    let mut r2 = gff::r#async::io::Reader::new(BufReader::new(src2));
-                    let mut lbs = r2.line_bufs();
-                    loop {
-                        match lbs.try_next().await {
-                            Ok(None) => break,
-                            Ok(Some(lb)) => {
-                                if !push(&mut t, opts, Ev::Record(format!("LB:{lb:?}"))) {
-                                    break;
-                                }
-                            }
-                            Err(e) => {
-                                t.push(err_ev("line-buf", &e));
+            }
+            "gff-bufs" => {
+                use futures::TryStreamExt;
+                let mut r = gff::r#async::io::Reader::new(BufReader::new(src));
+                let mut lbs = r.line_bufs();
+                loop {
+                    match lbs.try_next().await {
+                        Ok(None) => {
+                            t.push(Ev::Eof);
+                            break;
+                        }
+                        Ok(Some(lb)) => {
+                            if !push(&mut t, opts, Ev::Record(format!("LB:{lb:?}"))) {
                                 break;
                             }
+                        }
+                        Err(e) => {
+                            t.push(err_ev("record", &e));
+                            break;
                         }
                     }
                 }
